@@ -243,6 +243,78 @@ def eval_run_family(name, embedded):
     return {"name": name, "embedded": embedded, "status": "linear", "rows": rows, "why": ""}
 
 
+def eval_directive_time(name, through_parse):
+    """Directive-heavy input of 2^13 .. 2^19 characters, timed through parse()
+    or on the stand-alone lexer: < 2 s on the lexer (parse() of half a megabyte
+    legitimately takes seconds, so there only the ratios count), <= 50 x the
+    linear extrapolation from the smallest size, and t(4n) <= 8 t(n) once both
+    are >= 20 ms."""
+    fn = F.DIRECTIVE_FAMILIES[name][1]
+    rows = []
+    t0 = None
+    for n in F.DIRECTIVE_TIME_SIZES:
+        text = fn(n)
+        if through_parse:
+            r = F.parse_time(text, repeat=2, run_limit=60.0)
+        else:
+            r = F.lex_time(text, repeat=2, stop_at_error=True, run_limit=60.0)
+        if r[0] == "timeout":
+            rows.append([n, len(text), None, None, None])
+            return {"name": name, "parse": through_parse, "status": "slow", "rows": rows,
+                    "why": f"n={n}: {r[1]} did not finish within {r[2]} s"}
+        t, a, b = r
+        rows.append([n, len(text), round(t, 6), a, b])
+        if t0 is None:
+            t0, l0 = t, len(text)
+        bound = max(LEX_MARGIN * t0 * len(text) / l0, LEX_FLOOR)
+        why = ""
+        if t > bound:
+            why = (f"n={n}: {t:.4f} s > {bound:.4f} s = {LEX_MARGIN:g} x linear extrapolation from "
+                   f"{l0} characters ({t0:.6f} s)")
+        elif not through_parse and t >= LEX_ABS:
+            why = f"n={n}: {t:.4f} s >= absolute limit {LEX_ABS} s"
+        why = why or growth_violation(rows)
+        if why:
+            return {"name": name, "parse": through_parse, "status": "slow", "rows": rows, "why": why}
+    return {"name": name, "parse": through_parse, "status": "linear", "rows": rows, "why": ""}
+
+
+def eval_directive_copy(name):
+    """Deterministic: characters copied out of the input (a counting str
+    subclass) during parse(), at doubling sizes; the 2.5 oracle on every
+    window of three."""
+    fn = F.DIRECTIVE_FAMILIES[name][1]
+    rows = []
+    for n in F.DIRECTIVE_COPY_SIZES:
+        text = fn(n)
+        out, c = F.copied_chars(text)
+        rows.append([n, len(text), c, out if out == "ok" else out[:60]])
+        if out != "ok":
+            return {"name": name, "status": "rejected", "rows": rows, "why": out}
+        if len(rows) >= 3:
+            (l1, c1), (l2, c2), (l3, c3) = [(r[1], r[2]) for r in rows[-3:]]
+            # sizes are targets and the real lengths double only roughly, so the
+            # oracle is applied to the marginal rate: copied characters per
+            # additional input character (d2 <= 2.5 d1 for exact doubling)
+            per1 = (c2 - c1) / (l2 - l1)
+            per2 = (c3 - c2) / (l3 - l2)
+            if per2 > 1.25 * per1 and per2 > 0.01:
+                return {"name": name, "status": "superlinear", "rows": rows,
+                        "why": (f"characters copied per additional input character grew from {per1:.2f} "
+                                f"(between {l1} and {l2} characters) to {per2:.2f} (between {l2} and {l3}); "
+                                "affine cost keeps it constant, allowed +25%")}
+    if not rows[-1][2] > rows[0][2]:
+        return {"name": name, "status": "flat", "rows": rows, "why": "the counter did not grow"}
+    return {"name": name, "status": "linear", "rows": rows, "why": ""}
+
+
+def _directive_work(task):
+    out = []
+    for what, name, flag in task:
+        out.append((what, eval_directive_copy(name) if what == "copy" else eval_directive_time(name, flag)))
+    return out
+
+
 def _run_work(task):
     return [eval_run_family(name, emb) for name, emb in task]
 
@@ -407,8 +479,8 @@ def plan(tier):
     incomposable = []
     dup = 0
     modes = {"alt": 0, "stack": 0}
-    for x in F.NESTABLE:
-        for y in F.NESTABLE:
+    for x in F.PAIR_NAMES:
+        for y in F.PAIR_NAMES:
             mode, seq = F.pair_seq(x, y, 4)
             if seq is None:
                 incomposable.append(f"{x}+{y}")
@@ -430,6 +502,8 @@ def plan(tier):
         "lexer_margin_x_linear": LEX_MARGIN,
         "lexer_abs_seconds": LEX_ABS,
         "run_lengths": list(F.RUN_SIZES),
+        "directive_time_lengths": list(F.DIRECTIVE_TIME_SIZES),
+        "directive_copy_lengths": list(F.DIRECTIVE_COPY_SIZES),
         "growth_rule": f"t(4n) <= {GROWTH_MAX:g} t(n) when both >= {GROWTH_MIN} s",
         "escape_repetitions": list(F.ESCAPE_SMALL + F.ESCAPE_MEDIUM),
         "escape_step_factor_per_4_repetitions": ESC_STEP_FACTOR,
@@ -438,7 +512,9 @@ def plan(tier):
         "repeatable_constructs": len(F.repeat_names()),
         "nestable_constructs": len(F.NESTABLE),
         "nestable_self_nesting": sum(1 for n in F.NESTABLE if F.self_nests(n)),
-        "ordered_pairs": len(F.NESTABLE) ** 2,
+        "nestable_constructs_taking_part_in_pairs": len(F.PAIR_NAMES),
+        "systematic_compound_literal_constructs": len(F.CL_SYSTEMATIC),
+        "ordered_pairs": len(F.PAIR_NAMES) ** 2,
         "pair_families_alternating": modes["alt"],
         "pair_families_stacked": modes["stack"],
         "ordered_pairs_with_the_same_text_as_their_mirror": dup,
@@ -533,6 +609,15 @@ def run(tier):
     for part in core.pmap(_run_work, core.chunked(run_tasks, 4), chunksize=1):
         run_res.extend(part)
     t_ph.append(time.time())
+    dir_tasks = []
+    for n in F.DIRECTIVE_FAMILIES:
+        dir_tasks += [("time", n, True), ("time", n, False), ("copy", n, None)]
+    # the big parse() timings first: they are the longest tasks
+    dir_tasks.sort(key=lambda t: (t[0] != "time", t[2] is not True))
+    dir_res = []
+    for part in core.pmap(_directive_work, [[t] for t in dir_tasks], chunksize=1):
+        dir_res.extend(part)
+    t_ph.append(time.time())
     esc = F.escape_families(tier)
     esc_res = [None] * len(esc)
     for part in core.pmap(_escape_work, core.chunked(list(enumerate(esc)), 24), chunksize=1):
@@ -551,6 +636,10 @@ def run(tier):
         if r["status"] != "linear":
             lex_rerun.append(("parse:" if r["embedded"] else "lexer:") + r["name"])
             run_res[i] = eval_run_family(r["name"], r["embedded"])
+    for i, (what, r) in enumerate(dir_res):
+        if what == "time" and r["status"] != "linear":
+            lex_rerun.append(("parse:" if r["parse"] else "lexer:") + r["name"])
+            dir_res[i] = (what, eval_directive_time(r["name"], r["parse"]))
     for i, row in enumerate(esc_res):
         if row[1] != "linear":  # always: a single spike under load must never count
             lex_rerun.append(escape_family_name(esc[i]))
@@ -633,6 +722,34 @@ def run(tier):
                     "why": r["why"], "rows[n,len,seconds,..]": r["rows"]})
     run_worst.sort(reverse=True)
 
+    # directive families: one signature per directive class and measure
+    dir_hist = {}
+    dir_runs = 0
+    dir_worst = []
+    dir_by_sig = {}
+    for what, r in dir_res:
+        key = f"{what}:{r['status']}"
+        dir_hist[key] = dir_hist.get(key, 0) + 1
+        ok_rows = [row for row in r["rows"] if row[2] is not None]
+        dir_runs += len(ok_rows)
+        cls = F.DIRECTIVE_FAMILIES[r["name"]][0]
+        if what == "time":
+            label = ("parse:" if r["parse"] else "lexer:") + r["name"]
+            if len(ok_rows) > 1 and ok_rows[0][2]:
+                dir_worst.append((round(max(row[2] / ok_rows[0][2] / (row[1] / ok_rows[0][1])
+                                            for row in ok_rows[1:]), 2), label))
+            if r["status"] != "linear":
+                sig = f"directive-time:{cls}"
+                dir_by_sig.setdefault(sig, []).append(label)
+                R.fail(sig, {"directive_family": r["name"], "measure": "time", "parse": r["parse"]},
+                       {"family": label, "why": r["why"], "rows[n,len,seconds,..]": r["rows"]})
+        elif r["status"] != "linear":
+            sig = f"directive-copy:{cls}" if r["status"] == "superlinear" else f"{r['status']}:directive:{r['name']}"
+            dir_by_sig.setdefault(sig, []).append(r["name"])
+            R.fail(sig, {"directive_family": r["name"], "measure": "copy"},
+                   {"family": r["name"], "why": r["why"], "rows[n,len,copied_chars,outcome]": r["rows"]})
+    dir_worst.sort(reverse=True)
+
     # escape families: one signature per (char|string, escape kind); an
     # alternation of two kinds is attributed to a kind that is slow on its own
     esc_hist = {}
@@ -671,6 +788,8 @@ def run(tier):
             or accepted < 0.8 * full or len(funcs) < 100
             or lex_runs < 0.9 * len(LEX_SIZES) * len(lex_names)
             or len(run_res) < 100 or run_runs < 0.9 * len(F.RUN_SIZES) * len(run_res)
+            or len(dir_res) < 30 or dir_runs < 0.9 * (
+                2 * len(F.DIRECTIVE_TIME_SIZES) + len(F.DIRECTIVE_COPY_SIZES)) * len(F.DIRECTIVE_FAMILIES)
             or len(esc) < 1000 or esc_runs < 0.9 * sum(len(d[4]) for d in esc)
             or esc_nontrivial < 0.9 * esc_runs):
         R.fail("vacuous", {"families": len(results), "decided": decided, "accepted": accepted,
@@ -680,11 +799,18 @@ def run(tier):
 
     ratios.sort(reverse=True)
     lex_worst.sort(reverse=True)
-    R.set("states", len(results) + len(lex_results) + len(esc) + len(run_res))
-    R.set("transitions", members + lex_runs + esc_runs + run_runs)
-    R.set("traces_validated_against_impl", accepted + lex_runs + esc_runs + run_runs)
-    R.set("evaluations", members + lex_runs + esc_runs + run_runs)
-    R.set("distinct_nontrivial", nontrivial + lex_nontrivial + esc_nontrivial + run_nontrivial)
+    R.set("states", len(results) + len(lex_results) + len(esc) + len(run_res) + len(dir_res))
+    R.set("transitions", members + lex_runs + esc_runs + run_runs + dir_runs)
+    R.set("traces_validated_against_impl", accepted + lex_runs + esc_runs + run_runs + dir_runs)
+    R.set("evaluations", members + lex_runs + esc_runs + run_runs + dir_runs)
+    R.set("distinct_nontrivial", nontrivial + lex_nontrivial + esc_nontrivial + run_nontrivial + dir_runs)
+    R.set("directive_families", {"constructs": len(F.DIRECTIVE_FAMILIES),
+                                 "families_parse_lexer_copy": len(dir_res),
+                                 "time_sizes": list(F.DIRECTIVE_TIME_SIZES),
+                                 "copy_sizes": list(F.DIRECTIVE_COPY_SIZES), "measurements": dir_runs})
+    R.set("directive_status_histogram", dir_hist)
+    R.set("directive_bad_by_signature", {k: [len(v), v[:6]] for k, v in sorted(dir_by_sig.items())})
+    R.set("largest_directive_ratio_vs_linear", dir_worst[:8])
     R.set("run_families", {"constructs": len(F.RUN_FAMILIES), "families_bare_and_embedded": len(run_res),
                            "sizes": list(F.RUN_SIZES), "timings": run_runs,
                            "classes": sorted({v[0] for v in F.RUN_FAMILIES.values()})})
@@ -716,7 +842,7 @@ def run(tier):
     R.set("lexer_runs", lex_runs)
     R.set("status_histogram", hist)
     R.set("lexer_status_histogram", lex_hist)
-    R.set("distinct_outcomes", len(hist) + len(lex_hist) + len(esc_hist) + len(run_hist))
+    R.set("distinct_outcomes", len(hist) + len(lex_hist) + len(esc_hist) + len(run_hist) + len(dir_hist))
     R.set("distinct_step_values", len(step_values))
     R.set("superlinear_single_constructs", single_sig)
     R.set("superlinear_families_by_signature", {k: [len(v), v[:6]] for k, v in sorted(by_sig.items())})
@@ -727,7 +853,7 @@ def run(tier):
     R.set("productions_reached", len([f for f in funcs if f.startswith("_parse_")]))
     R.set("functions_reached", len(funcs))
     R.set("bounds", bounds)
-    R.set("phase_seconds", dict(zip(("families", "origin_analysis", "lexer_and_runs", "lexer_escape"),
+    R.set("phase_seconds", dict(zip(("families", "origin_analysis", "lexer_and_runs", "directives", "lexer_escape"),
                                     (round(b - a, 1) for a, b in zip(t_ph, t_ph[1:])))))
     R.assumptions += [
         "work = number of Python call events inside c_parser.py, c_lexer.py and ast_transforms.py, and, "
@@ -741,6 +867,9 @@ def run(tier):
         "so that first-touch page faults (tens of MB of regex mark stack for a 16 KB unterminated "
         "character constant) are not mistaken for work",
         "a timed lexer run under 5 ms is never counted as slow",
+        "directive families: string slicing is invisible to call counts, so they are timed (growth rule) and "
+        "measured with a deterministic counter of the characters copied out of the input object (a str "
+        "subclass; sees slicing of the input itself only)",
         "escape families: the step rule (4 more repetitions <= 6 x the time) only applies to runs over 2 ms",
     ]
     samples = []
@@ -766,7 +895,12 @@ def run(tier):
         "matches a longer rule (0x+hex*n, ..+'.', ..+'p', 0b.., digits+'e+', every integer-suffix prefix, "
         "L*n, u8.., _*n, $*n ...), bare on the lexer and embedded as `int x = <run>;` through parse(), at "
         "2^10, 2^12, 2^14, 2^16 characters: the 50 x / 2 s rules plus the growth rule t(4n) <= 8 t(n) once "
-        "both are >= 20 ms (also applied to the 2^10..2^14 families). Escape families: every escape kind (and every unordered pair of kinds, alternating) x char "
+        "both are >= 20 ms (also applied to the 2^10..2^14 families). Directive families: n characters of "
+        "repeated line markers (with / without flags, number only, #line, many flags, escaped / long file "
+        "names, inside a function body, one marker on top of a big file, markers in the first / last 1%) and "
+        "pragmas, 2^13..2^19 characters timed through parse() and on the lexer (50 x / growth rule; 2 s on the "
+        "lexer), and 2^11..2^15 with the copied-characters counter (marginal rate may grow by 25% per "
+        "doubling = the 2.5 oracle). Escape families: every escape kind (and every unordered pair of kinds, alternating) x char "
         "constant / string x prefix x shape (terminated = over-long for a char constant, unterminated at "
         "end of line / of input, bad escape at the end / start / end-unterminated), n = 8..28 repetitions "
         "(step 4), 64, 256, 1024 repetitions, and (single kinds) 4096 / 16384 characters lexed up to the first "
@@ -784,6 +918,18 @@ def replay(rep):
         print("lexer family:", c["lexer"])
         for row in r["rows"]:
             print("  n=%s len=%s seconds=%s tokens=%s errors=%s" % tuple(row))
+        print("verdict:", r["status"], r["why"])
+        return 1 if r["status"] != "linear" else 0
+    if "directive_family" in c:
+        if c["measure"] == "copy":
+            r = eval_directive_copy(c["directive_family"])
+        else:
+            r = eval_directive_time(c["directive_family"], c["parse"])
+        print("directive family:", c["directive_family"], "measure:", c["measure"],
+              "through parse()" if c.get("parse") or c["measure"] == "copy" else "on the stand-alone lexer")
+        print("member of ~200 characters:", repr(F.DIRECTIVE_FAMILIES[c["directive_family"]][1](200)))
+        for row in r["rows"]:
+            print("  n=%s len=%s %s=%s" % (row[0], row[1], "copied" if c["measure"] == "copy" else "seconds", row[2]))
         print("verdict:", r["status"], r["why"])
         return 1 if r["status"] != "linear" else 0
     if "run_family" in c:
